@@ -636,6 +636,14 @@ theorem endsGo_ne {f : String} (h : endsGo f = true) : f ≠ "" := by
 theorem file_mem {pkg : Pkg} {f : String} (h : (pkg.map File.name).contains f = true) : ∃ g ∈ pkg, g.name = f := by
   simpa using h
 
+theorem flagCheck_file' {pkg : Pkg} {fl : Flags} (hgoall : ∀ f ∈ pkg, endsGo f.name = true) (hf : fl.file ≠ "")
+    (hin : (pkg.map File.name).contains fl.file = true) : flagCheck pkg fl = none := by
+  obtain ⟨g, hg, hn⟩ := file_mem hin
+  have hgo : endsGo fl.file = true := hn ▸ hgoall g hg
+  have hfe : (fl.file == "") = false := by simpa using hf
+  simp only [flagCheck, hfe, hgo, hin]
+  simp
+
 theorem flagCheck_file {pkg : Pkg} {fl : Flags} (v : ValidFacts pkg) (hf : fl.file ≠ "")
     (hin : (pkg.map File.name).contains fl.file = true) : flagCheck pkg fl = none := by
   obtain ⟨g, hg, hn⟩ := file_mem hin
@@ -1205,5 +1213,71 @@ theorem cleanActive_star (fl : Flags) (aiofile : String) (h : cleanActiveWith fl
   · exfalso; apply ha
     have hc' : ¬((fl.file == "") = true ∧ fl.types.contains "*" = true) := by simpa using hc
     rw [if_neg hc']
+
+
+/-- `-file=f.go -type=…` with a name that is not a package-level type of f.go: a diagnostic and no file — for ANY package
+    (function-local types, type parameters, constants of predeclared types … included): only package-level type names have a file -/
+theorem named_notinfile_meets (cmd : Cmd) (pkg : Pkg) (fl : Flags) (hgo : ∀ f ∈ pkg, endsGo f.name = true)
+    (h : namedNotInFile pkg fl = true) :
+    ∃ bad ns f, mode fl = some (.named ns (some f)) ∧ spec cmd pkg fl = some (.rejected bad) ∧
+      meets (run cmd pkg fl) (.rejected bad) = true := by
+  unfold namedNotInFile at h
+  cases hm : mode fl with
+  | none => simp [hm] at h
+  | some md =>
+    cases md with
+    | file f sep => simp [hm] at h
+    | star sep => simp [hm] at h
+    | named ns file =>
+      cases file with
+      | none => simp [hm] at h
+      | some f =>
+        simp only [hm, Bool.and_eq_true, List.any_eq_true, bne_iff_ne, ne_eq] at h
+        obtain ⟨hin, n, hn, hne⟩ := h
+        obtain ⟨hts, hstar, hempty, hfl, hsp⟩ := mode_named hm
+        subst hts
+        have hfe : (fl.file == "") = false := by
+          cases hfe : (fl.file == "") with
+          | false => rfl
+          | true => simp [hfe] at hfl
+        have hf : fl.file ≠ "" := by simpa using hfe
+        have hgf : f = fl.file := by simp [hfe] at hfl; exact hfl
+        subst hgf
+        have hbadn : good cmd pkg (some fl.file) n = false := by
+          cases hg : good cmd pkg (some fl.file) n with
+          | false => rfl
+          | true => exact absurd (good_fileOf hg) hne
+        have hbne : (fl.types.filter (fun n => !good cmd pkg (some fl.file) n)).isEmpty = false := by
+          cases hl : fl.types.filter (fun n => !good cmd pkg (some fl.file) n) with
+          | nil =>
+            have : n ∈ fl.types.filter (fun n => !good cmd pkg (some fl.file) n) := by simp [List.mem_filter, hn, hbadn]
+            rw [hl] at this; cases this
+          | cons a r => rfl
+        refine ⟨fl.types.filter (fun n => !good cmd pkg (some fl.file) n), fl.types, fl.file, rfl, by simp [spec, hm, hbne], ?_⟩
+        have hfc : flagCheck pkg fl = none := flagCheck_file' hgo hf hin
+        rw [run_specified cmd pkg fl hsp hfc,
+          confirm_file_bad pkg fl.file hf _ ⟨n, hn, fun he => hne ((getD_eq_iff hf _).mp he)⟩]
+        exact meets_stop_fatal _
+
+
+/-- what `region … = .WF` means: a valid package in a well-formed selection, or the not-in-file situation in any package -/
+theorem region_wf_cases {cmd : Cmd} {pkg : Pkg} {fl : Flags} (h : region cmd pkg fl = .WF) :
+    (validPkg pkg = true ∧ regionValid cmd pkg fl = .WF) ∨
+    (validPkg pkg = false ∧ (∀ f ∈ pkg, endsGo f.name = true) ∧ namedNotInFile pkg fl = true) := by
+  unfold region at h
+  cases hv : validPkg pkg with
+  | true => left; simpa [hv] using h
+  | false =>
+    right
+    simp only [hv, Bool.false_eq_true, ↓reduceIte] at h
+    by_cases hc : (pkg.all (fun f => endsGo f.name) && namedNotInFile pkg fl) = true
+    · simp only [Bool.and_eq_true, List.all_eq_true] at hc
+      exact ⟨rfl, hc.1, hc.2⟩
+    · simp only [hc, Bool.false_eq_true, ↓reduceIte] at h
+      split at h
+      · split at h
+        · split at h <;> cases h
+        · cases h
+      · cases h
 
 end ShootVerif.Cli
